@@ -165,7 +165,12 @@ pub fn extract(
             fs.emitter.emit(error!("while writing '{}': {}", display_path, e))
         })?;
 
-        println!("exported '{}'", display_path);
+        // (a progress line; if stdout cannot take it -- a closed pipe, a full disk -- that is no
+        //  reason to panic or to stop extracting)
+        {
+            use std::io::Write;
+            let _ = writeln!(std::io::stdout(), "exported '{}'", display_path);
+        }
         Ok(())
     }).collect_with_recovery()
 }
